@@ -169,6 +169,19 @@ def run(ctx):
     for w in keyword_like_words()[:: ctx.pick(3, 1)]:
         f1 = r.choice(STR_FIELDS)
         bodies.append(["Resolution = 192", f'{PASCAL[f1]} = "{w}"'])
+    # every integer field at its numeric corner, Resolution included ("numeric fields become integers": zero is an integer and a
+    # field that is PRESENT is never reported missing).  Through the whole-chart entry a zero resolution is refused with
+    # ValueError (C15), which Props!C10V accepts for exactly that value; the section-level entry decodes it.
+    zero_bodies = []
+    for z in ("0", "00", "000"):
+        zero_bodies.append([f"Resolution = {z}"])
+        zero_bodies.append(['Name = "x"', f"Resolution = {z}", "Offset = 0"])
+        zero_bodies.append([f"{PASCAL[f]} = {z}" for f in INT_FIELDS])
+    for k, b in enumerate(zero_bodies):
+        recs.append(observe(f"z{k}", b))
+        for how in ITERABLES:
+            recs.append(observe(f"z{k}-{how}", b, entry=how))
+            ctx.evaluations += 1
     for k, b in enumerate(bodies):
         recs.append(observe(f"s{k}", b))
         ctx.evaluations += 1
